@@ -63,7 +63,8 @@ TInit == ti = 1 /\ s = InitState /\ path = <<>>
 TNext == /\ ti <= Len(Traces)
          /\ PrintT(<<"VERDICT", Traces[ti].tid, Verdict(Traces[ti])>>)
          /\ ti' = ti + 1
-         /\ s' = Step(FromLog(Traces[ti].pre), Traces[ti].call)
+         /\ s' = IF InDomain(FromLog(Traces[ti].pre), Traces[ti].call)
+                 THEN Step(FromLog(Traces[ti].pre), Traces[ti].call) ELSE FromLog(Traces[ti].pre)
          /\ path' = <<ti>>
 AllJudged == TLCGet("stats").distinct >= Len(Traces)   \* as a POSTCONDITION
 =============================================================================
